@@ -392,7 +392,38 @@ func runC20(c *Ctx) {
 					_, isRecv := i.(*ssa.UnOp)
 					return isRecv && i.(*ssa.UnOp).Op == token.ARROW
 				}, Edge: EdgeUnder(env(0))}).FromInstr(recv)
-				c.Check("C20.S", "no-grace-period:prompt-exit", p, recv.Pos(), h0 == nil && hb == nil, "without a grace period main returns after the signal without sleeping or blocking", "without a grace period main still sleeps/blocks after the signal")
+				// … and nothing deferred by main waits either (deferred calls run when main returns)
+				deferredWait := ""
+				EachInstr(main, func(i ssa.Instruction) {
+					d, isD := i.(*ssa.Defer)
+					if !isD {
+						return
+					}
+					fn := StaticFunc(&d.Call)
+					if fn == nil || len(fn.Blocks) == 0 {
+						return
+					}
+					for _, g := range WithClosures(fn) {
+						EachInstr(g, func(j ssa.Instruction) {
+							if u, isU := j.(*ssa.UnOp); isU && u.Op == token.ARROW {
+								deferredWait = "receives from a channel at " + p.Pos(j.Pos())
+							}
+							if sel, isSel := j.(*ssa.Select); isSel && sel.Blocking {
+								deferredWait = "blocks in a select at " + p.Pos(j.Pos())
+							}
+							if cc := CallOf(j); cc != nil {
+								switch CalleeName(cc) {
+								case "time.Sleep", "(*sync.WaitGroup).Wait":
+									deferredWait = "calls " + CalleeName(cc) + " at " + p.Pos(j.Pos())
+								}
+							}
+						})
+					}
+				})
+				if deferredWait != "" {
+					hb = recv
+				}
+				c.Check("C20.S", "no-grace-period:prompt-exit", p, recv.Pos(), h0 == nil && hb == nil, "without a grace period main returns after the signal without sleeping or blocking", "without a grace period main still sleeps/blocks after the signal (or a call deferred by main "+deferredWait+": the process stays alive until e.g. the pending-list poll in flight returns, up to a minute)")
 				h1, _ := (&Walk{Target: IsReturn, Avoid: func(i ssa.Instruction) bool { return i == fatal }, Edge: EdgeUnder(env(5_000_000_000))}).FromInstr(recv)
 				c.Check("C20.S", "graceful:always-terminates", p, recv.Pos(), h1 == nil, "with a grace period every path after the signal reaches the terminating call", "with a grace period a path after the signal returns without terminating the process")
 			}
